@@ -4,6 +4,7 @@ import DimodModel.PolyH
 import DimodModel.EnergyVars
 import DimodModel.AsSamplesForms
 import DimodModel.EnergyGen
+import DimodModel.PyRelabel
 import DimodModel.Wire
 open Wire En
 
@@ -260,6 +261,12 @@ def lbStep (d : LBqm Rat) (view : VT) (old : Bool) (op : List String) : LBqm Rat
     | some v, some a => if view = d.vt then lbExc d (d.fixVariable v a) else bad | _, _ => bad
   | ["relabel", o, n] => match parseLabel? o, parseLabel? n with
     | some o, some n => if view = d.vt then lbFin d (d.relabelOne o n, none) else bad | _, _ => bad
+  -- round 7: `relabel_variables(mapping)` as a whole (the model splits the mapping itself); mapping = old>new,old>new
+  | ["relabelmap", mp] =>
+      match (splitTok mp ",").mapM (fun kv => match kv.splitOn ">" with
+        | [a, b] => do pure ((← parseLabel? a), (← parseLabel? b)) | _ => none) with
+      | some mapping => if view = d.vt then lbExc d (d.relabelVariables mapping) else bad
+      | none => bad
   | ["order"] => (d, "ok " ++ showOrder d)
   | ["getoff"] => (d, "ok " ++ showRat (View.offset T view d))
   | ["getlin", v] => match parseLabel? v with
@@ -375,6 +382,14 @@ def step (d : LBqm Rat) (line : String) : LBqm Rat × String :=
       pure (match sampleArrayInt (← parseIntRows rows) with
         | .ok (w, out) => s!"ok int{w} {showIntRows out}"
         | .error e => "err " ++ showErr e)
+  | ["saferelabels", labels, mp] => pure1 do
+      let ls ← parseLabels labels
+      let mapping ← (splitTok mp ",").mapM (fun kv => match kv.splitOn ">" with
+        | [a, b] => do pure ((← parseLabel? a), (← parseLabel? b)) | _ => none)
+      pure (match (LBqm.variablesOf ls).safeRelabels mapping with
+        | none => "err value"
+        | some subs => "ok " ++ String.intercalate "|" (subs.map fun sub =>
+            if sub.isEmpty then "." else String.intercalate "," (sub.map fun p => s!"{showLabel p.1}>{showLabel p.2}")))
   | ["energygen", l, a, o, x] => pure1 do
       let m ← parseQMB l a o; let x ← parseRats x
       pure s!"{showRat (m.energyGen (xOf x))} {showRat (m.cyEnergyGen (xOf x))}"
